@@ -8,5 +8,4 @@ CONSTANTS
 INVARIANT ClausesHold
 INVARIANT RepairedHolds
 INVARIANT KFNarrow
-INVARIANT KFBgReal
 INVARIANT Emit
